@@ -267,6 +267,16 @@ Proof.
   apply wrap32_small. change (2 ^ 31) with 2147483648 in Hn. change (2 ^ 32) with 4294967296. lia.
 Qed.
 
+(** removes the conversions and the `unsigned int` wrap-arounds whose argument is in range by the
+    facts at hand (outside binders; innermost first by backtracking over the occurrences) *)
+Ltac in_range := change (2 ^ 31) with 2147483648 in *; change (2 ^ 32) with 4294967296 in *; first [lia | nia].
+Ltac unwrap :=
+  unfold f2u, f2s;
+  repeat match goal with
+         | |- context [wrap32 ?t] => rewrite (wrap32_small t) by in_range
+         | |- context [u2s ?t] => rewrite (u2s_small t) by in_range
+         end.
+
 (** tracking model 1.  [ip] is the number of stencil points (3 or 4 in the code); the table index
     `yi*_ip+j` is computed in `unsigned int` and must not wrap *)
 Theorem gen_fp1_is_model n ip H D e1 zb0 zb1 noise p :
@@ -276,16 +286,20 @@ Proof.
   intros Hn Hip Hsz (X0 & X1 & Y0 & Y1).
   assert (Hn' : 2 <= n < 2 ^ 32) by (change (2 ^ 31) with 2147483648 in Hn; change (2 ^ 32) with 4294967296; lia).
   destruct (floor_coord n (py p) (proj2 Hn) Y0 Y1) as [W B].
-  unfold gen_fp_approximation1, fp_approx1, fp_offset1, xpos_of, f2u. cbv zeta. cbn [px py].
-  rewrite gen_fp1_clamp_fin by exact Hn'. rewrite !W.
+  unfold gen_fp_approximation1, fp_approx1, xpos_of. cbv zeta. cbn [px py].
+  rewrite gen_fp1_clamp_fin by exact Hn'.
   apply xpair_eq; [reflexivity|]. apply (f_equal (clamp_grid n)).
-  replace (Z.min (Qcfloor (py p)) n) with (Qcfloor (py p)) by lia.
-  apply (f_equal (fun s => (py p + s)%Qc)).
-  apply qsum_map_ext. intros j Hj. cbv zeta.
-  assert (0 <= Qcfloor (py p) * ip <= n * ip) by nia.
-  rewrite (wrap32_small (Qcfloor (py p) * ip)) by nia.
-  rewrite (wrap32_small (Qcfloor (py p) * ip + j)) by nia.
-  ring.
+  (* the one sum of the generated body is the model's offset *)
+  match goal with
+  | |- context [qsum (map ?F (zrange ip))] =>
+      assert (E : qsum (map F (zrange ip)) = fp_offset1 n ip H (py p))
+  end.
+  { unfold fp_offset1. cbv zeta. unfold f2u. rewrite !W.
+    replace (Z.min (Qcfloor (py p)) n) with (Qcfloor (py p)) by lia.
+    apply qsum_map_ext. intros j Hj. cbv zeta.
+    assert (0 <= Qcfloor (py p) * ip <= n * ip) by nia.
+    unwrap. ring. }
+  rewrite E. ring.
 Qed.
 
 (** tracking model 2: final statement from the charge and the moment *)
@@ -315,21 +329,15 @@ Proof.
   assert (Hn' : 2 <= n < 2 ^ 32) by (change (2 ^ 31) with 2147483648 in Hn; change (2 ^ 32) with 4294967296; lia).
   destruct (floor_coord n (px p) (proj2 Hn) X0 X1) as [Wx Bx].
   destruct (floor_coord n (py p) (proj2 Hn) Y0 Y1) as [Wy By].
-  unfold gen_fp_approximation2, fp_approx2, fp_charge2, fp_moment2, fp_cell2, xpos_of, f2u, f2s. cbv zeta. cbn [px py].
-  rewrite !(wrap32_nm1 n Hn'), !Wx.
-  rewrite !(u2s_small (n - 1)) by (change (2 ^ 31) with 2147483648 in *; lia).
-  rewrite !(u2s_small (Z.min (Qcfloor (px p)) (n - 1))) by (change (2 ^ 31) with 2147483648 in *; lia).
-  set (xi := Z.min (Qcfloor (px p)) (n - 1)). set (yi := Z.min (Qcfloor (py p)) (n - 1)).
-  assert (Hxi : 0 <= xi <= n - 1) by (unfold xi; lia).
-  assert (Hxn : 0 <= xi * n <= (n - 1) * n) by nia.
-  change (2 ^ 31) with 2147483648 in *. 
-  rewrite !(wrap32_small xi) by (change (2 ^ 32) with 4294967296; lia).
-  rewrite !(wrap32_small (xi * n)) by (change (2 ^ 32) with 4294967296; nia).
+  unfold gen_fp_approximation2, fp_approx2, xpos_of. cbv zeta. cbn [px py].
   apply (f_equal (fun t => (XF (px p), t))).
-  apply fp2_final; [exact Hn' | |]; apply qsum_map_ext; intros j Hj; cbv zeta;
-    pose proof (HH (yi * ip + j)) as Hh;
-    rewrite !(wrap32_small (xi * n + fst (H (yi * ip + j)))) by (change (2 ^ 32) with 4294967296; nia);
-    rewrite ?(u2s_small (fst (H (yi * ip + j)))) by exact Hh; ring.
+  assert (Hxi : 0 <= Z.min (Qcfloor (px p)) (n - 1) <= n - 1) by lia.
+  assert (Hxn : 0 <= Z.min (Qcfloor (px p)) (n - 1) * n <= (n - 1) * n) by nia.
+  apply fp2_final; [exact Hn' | |];
+    unfold fp_moment2, fp_charge2, fp_cell2; cbv zeta; cbn [px py]; unwrap;
+    apply qsum_map_ext; intros j Hj; cbv zeta;
+    match goal with |- context [fst (H ?i)] => pose proof (HH i) as Hh end;
+    unwrap; ring.
 Qed.
 
 (** the stochastic model: damping of the distance to the zero bin of the ENERGY axis ([zb1]; the zero
